@@ -157,7 +157,12 @@ def main():
         if g in RENDER:
             if d is None:
                 d = facts()
-                problems += d.get("problems") or []
+                # extractor problems prefixed "Cxx" belong to that group only; unprefixed ones to everyone
+                import re as _re
+                for pr in d.get("problems") or []:
+                    m = _re.match(r"(C\d+)", pr)
+                    if not m or m.group(1) in groups:
+                        problems.append(pr)
             problems += RENDER[g](d) or []
         else:
             script = os.path.join(V, "bin", "gen_%s.py" % g.lower())
